@@ -21,6 +21,7 @@ import ast
 from ..astutil import call_name, calls, const_eval, dotted, names_in, param_names, stmts, walk_local
 from ..exprnorm import contains_expr, same_expr
 from ..core import AnalysisError, Mutant
+from ..exprnorm import has_code
 
 EXPLANATION = (
     "CIGAR table evaluation against the SAM oracle, def-use of the reference/segment pointers per "
@@ -152,15 +153,15 @@ def run(ctx):
     pre = {st.targets[0].id: st.value for st in rd.body if isinstance(st, ast.Assign) and isinstance(st.targets[0], ast.Name)}
     ctx.ob("R2.start-position", CIG, "read_alignment_from_cigar", "ref_pos = position; seg_pos = 0; i = 0",
            same_expr(pre.get("ref_pos"), "position") and same_expr(pre.get("seg_pos"), "0") and same_expr(pre.get("i"), "0")
-           and "trace = trace[clip_mask]" in rt,
+           and has_code(rd, "trace = trace[clip_mask]"),
            "the reference pointer starts at the given position, the segment pointer at 0", rd.lineno)
     # ---------------- R3 writer ------------------------------------------------------
     wr = s.func("write_alignment_to_cigar")
     wt = ast.unparse(wr)
     ctx.ob("R3.masks", CIG, "write_alignment_to_cigar", "insertion: ref == -1, deletion: seg == -1",
-           "insertion_mask = ref_trace == -1" in wt and "deletion_mask = seg_trace == -1" in wt
-           and "operations[insertion_mask] = CigarOp.INSERTION" in wt and "operations[deletion_mask] = CigarOp.DELETION" in wt
-           and "ref_trace = alignment.trace[:, reference_index]" in wt and "seg_trace = alignment.trace[:, segment_index]" in wt,
+           has_code(wr, "insertion_mask = ref_trace == -1") and has_code(wr, "deletion_mask = seg_trace == -1")
+           and has_code(wr, "operations[insertion_mask] = CigarOp.INSERTION") and has_code(wr, "operations[deletion_mask] = CigarOp.DELETION")
+           and has_code(wr, "ref_trace = alignment.trace[:, reference_index]") and has_code(wr, "seg_trace = alignment.trace[:, segment_index]"),
            "an insertion is a gap in the reference, a deletion a gap in the segment", wr.lineno)
     from ..exprnorm import local_value as _lv
     rc_, sc_ = _lv(wr, "ref_codes"), _lv(wr, "seg_codes")
@@ -173,26 +174,26 @@ def run(ctx):
            "'=' and 'X' are decided by comparing the rows given by reference_index and segment_index (not the first two rows); the code uses "
            + (ast.unparse(rc_)[:60] if rc_ is not None else "?") + " / " + (ast.unparse(sc_)[:60] if sc_ is not None else "?"), wr.lineno)
     ctx.ob("R3.masks", CIG, "write_alignment_to_cigar", "insertion & deletion -> ValueError",
-           "np.any(insertion_mask & deletion_mask)" in wt, "a column of gaps only cannot be expressed", wr.lineno, nontrivial=False)
+           has_code(wr, "np.any(insertion_mask & deletion_mask)"), "a column of gaps only cannot be expressed", wr.lineno, nontrivial=False)
     ctx.ob("R3.clip-choice", CIG, "write_alignment_to_cigar", "clip_op = HARD_CLIP if hard_clip else SOFT_CLIP",
-           "clip_op = CigarOp.HARD_CLIP if hard_clip else CigarOp.SOFT_CLIP" in wt, "the clip operation follows the hard_clip option", wr.lineno)
+           has_code(wr, "clip_op = CigarOp.HARD_CLIP if hard_clip else CigarOp.SOFT_CLIP"), "the clip operation follows the hard_clip option", wr.lineno)
     ctx.ob("R3.match-refinement", CIG, "write_alignment_to_cigar", "EQUAL/DIFFERENT only on MATCH columns",
-           "operations[equal_mask & match_mask] = CigarOp.EQUAL" in wt and "operations[~equal_mask & match_mask] = CigarOp.DIFFERENT" in wt
-           and "match_mask = operations == CigarOp.MATCH" in wt, "'='/'X' refine M columns only", wr.lineno)
+           has_code(wr, "operations[equal_mask & match_mask] = CigarOp.EQUAL") and has_code(wr, "operations[~equal_mask & match_mask] = CigarOp.DIFFERENT")
+           and has_code(wr, "match_mask = operations == CigarOp.MATCH"), "'='/'X' refine M columns only", wr.lineno)
     ctx.ob("R3.intron", CIG, "write_alignment_to_cigar", "introns only inside deletions, by reference position",
-           "intron_mask[(ref_trace >= start) & (ref_trace < stop)] = True" in wt and "np.any(intron_mask & ~deletion_mask)" in wt,
+           has_code(wr, "intron_mask[(ref_trace >= start) & (ref_trace < stop)] = True") and has_code(wr, "np.any(intron_mask & ~deletion_mask)"),
            "introns are half-open reference intervals and must lie within deletions", wr.lineno)
     fc = s.func("_find_clipped_bases")
     ft = ast.unparse(fc)
     ctx.ob("R3.clip-lengths", CIG, "_find_clipped_bases", "start = seg_trace[0]; end = len(segment) - seg_trace[-1] - 1",
-           "start_clip_length = seg_trace[0]" in ft and "end_clip_length = len(alignment.sequences[segment_index]) - seg_trace[-1] - 1" in ft
-           and "_remove_terminal_segment_gaps(alignment, segment_index)" in ft,
+           has_code(fc, "start_clip_length = seg_trace[0]") and has_code(fc, "end_clip_length = len(alignment.sequences[segment_index]) - seg_trace[-1] - 1")
+           and has_code(fc, "_remove_terminal_segment_gaps(alignment, segment_index)"),
            "clipped bases are the segment positions before the first and after the last aligned one", fc.lineno)
     ag = s.func("_aggregate_consecutive")
     at = ast.unparse(ag)
     ctx.ob("R3.run-lengths", CIG, "_aggregate_consecutive", "runs start where operations[:-1] != operations[1:]",
-           "np.where(operations[:-1] != operations[1:])[0]" in at and "op_start_indices += 1" in at
-           and "np.diff(np.append(op_start_indices, len(operations)))" in at, "run lengths must sum to the number of columns", ag.lineno)
+           has_code(ag, "np.where(operations[:-1] != operations[1:])[0]") and has_code(ag, "op_start_indices += 1")
+           and has_code(ag, "np.diff(np.append(op_start_indices, len(operations)))"), "run lengths must sum to the number of columns", ag.lineno)
     # writer: each item is <count> immediately followed by <symbol> (concatenation or f-string, any loop form)
     f = s.func("_cigar_from_op_tuples")
     okw = False
@@ -284,11 +285,11 @@ def run(ctx):
            "row i is written under name i", sa.lineno, nontrivial=False)
     gc = al.func("get_codes")
     ctx.ob("R4.codes-gap", ALN, "get_codes", "np.where(trace[:, i] != -1, code[trace[:, i]], -1)",
-           "np.where(trace[:, i] != -1, sequences[i].code[trace[:, i]], np.int64(-1))" in ast.unparse(gc),
+           has_code(gc, "np.where(trace[:, i] != -1, sequences[i].code[trace[:, i]], np.int64(-1))"),
            "the code matrix carries -1 exactly at gap positions", gc.lineno)
     ft_ = al.func("find_terminal_gaps")
     ctx.ob("R4.terminal-gaps", ALN, "find_terminal_gaps", "(max of first non-gap, min of last non-gap + 1)",
-           "np.max(firsts).item(), np.min(lasts).item() + 1" in ast.unparse(ft_) and "trace[:, i] != -1" in ast.unparse(ft_),
+           has_code(ft_, "np.max(firsts).item(), np.min(lasts).item() + 1") and has_code(ft_, "trace[:, i] != -1"),
            "the non-terminal region runs from the latest first symbol to the earliest last symbol (exclusive stop)", ft_.lineno)
     # ---------------- R6 helpers: parameters honoured, per-sequence state, all-rows match ----
     n_par = 0
@@ -349,13 +350,13 @@ def run(ctx):
     git = ast.unparse(gi)
     uses_any = any(isinstance(c, ast.Call) and isinstance(c.func, ast.Attribute) and c.func.attr == "any" and "codes" in ast.unparse(c.func.value)
                    for c in ast.walk(gi))
-    all_rows = ("len(unique_symbols) == 1 and unique_symbols[0] != -1" in git) or (".all(axis=0)" in git and "!= -1" in git)
+    all_rows = (has_code(gi, "len(unique_symbols) == 1 and unique_symbols[0] != -1")) or (".all(axis=0)" in git and "!= -1" in git)
     ctx.ob("R6.identity-all-rows", ALN, "get_sequence_identity", "a column matches iff all rows carry the same non-gap symbol",
            all_rows and not uses_any,
            "a column counts as identical only if *all* sequences carry the same symbol and it is not a gap", gi.lineno)
     gp = al.func("get_pairwise_sequence_identity")
     ctx.ob("R6.identity-all-rows", ALN, "get_pairwise_sequence_identity", "equal & both not gap",
-           "(codes[:, np.newaxis, :] == codes[np.newaxis, :, :]) & (codes[:, np.newaxis, :] != -1) & (codes[np.newaxis, :, :] != -1)" in ast.unparse(gp),
+           has_code(gp, "(codes[:, np.newaxis, :] == codes[np.newaxis, :, :]) & (codes[:, np.newaxis, :] != -1) & (codes[np.newaxis, :, :] != -1)"),
            "pairwise identity counts positions where both symbols are equal and neither is a gap", gp.lineno)
 
     # ---------------- R5 MSA reorder -------------------------------------------------------
@@ -363,15 +364,15 @@ def run(ctx):
     am = m.func("align_multiple")
     mt = ast.unparse(am)
     ctx.ob("R5.same-permutation", MULT, "align_multiple", "aligned_seqs and trace columns reordered by np.argsort(order)",
-           "new_order = np.argsort(order)" in mt and "aligned_seqs = [aligned_seqs[pos] for pos in new_order]" in mt
-           and "trace = trace[:, new_order]" in mt,
+           has_code(am, "new_order = np.argsort(order)") and has_code(am, "aligned_seqs = [aligned_seqs[pos] for pos in new_order]")
+           and has_code(am, "trace = trace[:, new_order]"),
            "rows and trace columns must be brought back to input order by the same permutation", am.lineno)
     ctx.ob("R5.gap-symbol", MULT, "align_multiple", "gap symbol code -> -1, then stripped from the codes",
-           "if seq_code[i] == gap_symbol_code:" in mt and "trace[i, j] = -1" in mt and "code[code != gap_symbol_code]" in mt
-           and "gap_symbol_code = new_alphabet.encode(gap_symbol)" in mt,
+           "if seq_code[i] == gap_symbol_code:" in mt and has_code(am, "trace[i, j] = -1") and has_code(am, "code[code != gap_symbol_code]")
+           and has_code(am, "gap_symbol_code = new_alphabet.encode(gap_symbol)"),
            "the neutral gap symbol must become -1 in the trace and vanish from the sequences", am.lineno)
     ctx.ob("R5.returns", MULT, "align_multiple", "(Alignment, order, guide_tree, distances)",
-           "return (Alignment(aligned_seqs, trace), order, guide_tree, distances)" in mt, "", am.lineno, nontrivial=False)
+           has_code(am, "return (Alignment(aligned_seqs, trace), order, guide_tree, distances)"), "", am.lineno, nontrivial=False)
 
 
 MUTANTS = [
